@@ -222,7 +222,7 @@ class BaseServer:
         # - self.handlers["*"][event]
         # - self.handlers["*"]["*"]
         handler = None
-        if namespace in self.handlers:
+        if namespace != '*' and namespace in self.handlers:
             if event != '*' and event in self.handlers[namespace]:
                 handler = self.handlers[namespace][event]
             elif event not in self.reserved_events and \
@@ -246,7 +246,7 @@ class BaseServer:
         # - self.namespace_handlers[namespace]
         # - self.namespace_handlers["*"]
         handler = None
-        if namespace in self.namespace_handlers:
+        if namespace != '*' and namespace in self.namespace_handlers:
             handler = self.namespace_handlers[namespace]
         if handler is None and '*' in self.namespace_handlers:
             handler = self.namespace_handlers['*']
